@@ -8,6 +8,7 @@ PROPERTY = "C03"
 LABELS = ["fixpoint_conforms", "fixpoint_accepts_again", "fixpoint_identity"]
 t_parse = tmpl.pick(tmpl.parse_case, LABELS)
 t_sidx = tmpl.pick(tmpl.series_index_case, LABELS)
+t_wide = tmpl.pick(tmpl.wide_parse_case, LABELS)
 
 
 def templates(tier, seed):
@@ -16,6 +17,14 @@ def templates(tier, seed):
     for vc, ic in itertools.product((False, True), repeat=2):
         for lazy in (False, True):
             ts.append(Template(f"SI/val_coerce={int(vc)}/idx_coerce={int(ic)}/lazy={int(lazy)}/N={N}", t_sidx, (N, lazy, vc, ic)))
+    # add_missing_columns with several gaps: every non-empty subset of four declared columns, with and without `ordered`
+    names = ["c0", "c1", "c2", "c3"]
+    for k in range(1, 5):
+        for sub in itertools.combinations(names, k):
+            for ordered in (False, True):
+                ts.append(Template(f"W/{''.join(c[1] for c in sub)}/ordered={int(ordered)}", t_wide, (list(sub), 1, dict(ordered=ordered))))
+    for sub, strict in ((["x", "c1", "c3"], "filter"), (["c1", "x", "c3"], "filter"), (["c0", "c2", "x"], "filter"), (["c1", "c3"], True)):
+        ts.append(Template(f"W/{''.join(c[-1] for c in sub)}/strict={strict}/ordered=1", t_wide, (sub, 1, dict(ordered=True, strict=strict))))
     combos = []
     for coerce, a_kind in ((None, "float"), ("col", "int"), ("schema", "int"), ("col", "float")):
         for default in (False, True):
@@ -31,4 +40,7 @@ def templates(tier, seed):
         c["distinct_labels"] = c["drop"]
         tid = "P/" + "".join(arr) + "/" + "/".join(f"{k}={v}" for k, v in c.items() if k != "distinct_labels")
         ts.append(Template(tid, t_parse, (arr, N, c)))
+    import tmpl_pl
+
+    ts += [Template(tid, tmpl.pick(fn, LABELS), args) for tid, fn, args in tmpl_pl.parse_cases(tier)]
     return ts
